@@ -12,7 +12,7 @@ the translator fails closed.
 import importlib
 import os
 
-PARTS = ["tables", "signatures", "evalprogs", "effects", "regex", "scalars", "scalars_key", "scalars_chord", "defaults", "chordfns"]
+PARTS = ["tables", "signatures", "evalprogs", "effects", "regex", "scalars", "scalars_key", "scalars_chord", "defaults", "chordfns", "chordfns_rotate"]
 
 
 def write_if_changed(path, text):
